@@ -1,6 +1,7 @@
 package main
 
 import (
+	"strconv"
 	"fmt"
 	"go/constant"
 	"go/token"
@@ -775,12 +776,20 @@ func (g *Gen) instr(ins ssa.Instruction, b *ssa.BasicBlock, in map[*ssa.BasicBlo
 		g.phi(x, b, in)
 	case *ssa.Call:
 		g.call(x)
-		if g.con != nil && len(g.con.After) > 0 && len(g.inlineStack) == 0 {
-			if k := g.callOrdinal(x); k > 0 {
+		if g.con != nil && (len(g.con.After) > 0 || len(g.con.AfterGhost) > 0) && len(g.inlineStack) == 0 {
+			for _, k := range g.callKeys(x) {
 				cx := g.ctxHere()
-				cx.vars["lastcall"] = g.env[x].V
+				if sv := g.env[x]; sv != nil {
+					cx.vars["lastcall"] = sv.V
+				}
+				for _, gd := range g.con.AfterGhost[k] {
+					if g.curLoop != nil {
+						oos("ghost assignment after call %s is inside a loop", k)
+					}
+					g.assignGhost(gd.Name, g.evalSpec(gd.Expr, cx))
+				}
 				for _, c := range g.con.After[k] {
-					g.obligeClause(fmt.Sprintf("after[%d]", k), g.evalBool(c.Expr, cx, c), c)
+					g.obligeClause(fmt.Sprintf("after[%s]", k), g.evalBool(c.Expr, cx, c), c)
 				}
 			}
 		}
@@ -822,6 +831,50 @@ func (g *Gen) instr(ins ssa.Instruction, b *ssa.BasicBlock, in map[*ssa.BasicBlo
 }
 
 // callOrdinal: 1-based index of a call instruction among the function's calls in source order
+// callKeys: the names by which `after call K:` clauses can refer to this call: its ordinal in source order, the
+// callee's bare name (if it is called once, or for the first call) and name#k for the k-th call of that callee.
+func (g *Gen) callKeys(x *ssa.Call) []string {
+	k := g.callOrdinal(x)
+	if k == 0 {
+		return nil
+	}
+	keys := []string{strconv.Itoa(k)}
+	name := calleeBareName(x)
+	if name == "" {
+		return keys
+	}
+	var same []*ssa.Call
+	for c := range g.callOrd {
+		if calleeBareName(c) == name {
+			same = append(same, c)
+		}
+	}
+	sort.Slice(same, func(i, j int) bool { return same[i].Pos() < same[j].Pos() })
+	for i, c := range same {
+		if c == x {
+			if i == 0 {
+				keys = append(keys, name)
+			}
+			keys = append(keys, fmt.Sprintf("%s#%d", name, i+1))
+		}
+	}
+	return keys
+}
+
+func calleeBareName(x *ssa.Call) string {
+	cc := x.Common()
+	if cc.IsInvoke() {
+		return cc.Method.Name()
+	}
+	if b, ok := cc.Value.(*ssa.Builtin); ok {
+		return b.Name()
+	}
+	if f := cc.StaticCallee(); f != nil {
+		return f.Name()
+	}
+	return ""
+}
+
 func (g *Gen) callOrdinal(x *ssa.Call) int {
 	if g.callOrd == nil {
 		g.callOrd = map[*ssa.Call]int{}
@@ -907,6 +960,21 @@ func (g *Gen) unop(x *ssa.UnOp) {
 		}
 		v := g.loadAddr(g.st, a)
 		g.noteLoaded(v)
+		// opt elems_nonnil=T: slices of *T never hold nil (a type invariant of the producer, e.g. the syntax
+		// parser's trees); listed as an assumption
+		if g.con != nil && g.con.Opts["elems_nonnil"] != "" && a.K == aElem {
+			if pt, ok := v.T.Underlying().(*types.Pointer); ok && strings.Contains(pt.Elem().String(), g.con.Opts["elems_nonnil"]) {
+				g.assumeReach(not(eq(v.C[0], tInt(0))))
+				note := "elements of []*" + g.con.Opts["elems_nonnil"] + " slices are never nil (" + g.fnName() + ")"
+				dup := false
+				for _, a := range g.assumptions {
+					dup = dup || a == note
+				}
+				if !dup {
+					g.assumptions = append(g.assumptions, note)
+				}
+			}
+		}
 		g.setVal(x, v)
 	case token.NOT:
 		v := g.val(x.X)
